@@ -353,8 +353,8 @@ func buildSynthetic(k *Knobs, st *core.Stats) *chain {
 			core.Harnessf("stateless: NewBlock: %v", err)
 		}
 		resMeta[i] = &cmtcoretypes.ResultBlockResults{
-			Height:     height,
-			TxsResults: results,
+			Height:           height,
+			TxsResults:       results,
 			BeginBlockEvents: []abci.Event{{Type: "oasis_event_beacon", Attributes: []abci.EventAttribute{{Key: "epoch", Value: fmt.Sprint(i)}}}},
 		}
 		if r.Bool() {
